@@ -138,6 +138,21 @@ def run(prog, rep, tier):
     else:
         r2.fail(uv.name, "set-after-reselect", "the unreachable set is not updated before the tables are re-evaluated", uv.loc())
 
+    # every path using a next hop follows its reachability: the flag update visits all entries of a destination
+    from ..util import mutating_short_circuit_closures
+    uk = prog.one(r"rustybgp_table::Table::update_nexthop_validity")
+    for kk in prog.with_closures(uk):
+        uv = view(prog, kk)
+        for bi, meth, ck, what in mutating_short_circuit_closures(prog, uv):
+            r2.fail(prog.name(uk), "flag-update-short-circuits:" + meth, "update_nexthop_validity updates the next-hop-invalid flag inside a closure given to Iterator::%s (%s): iteration stops at the "
+                    "first entry that changes, so other paths using the same next hop keep their old eligibility" % (meth, what), uv.loc(bi))
+    uvv = view(prog, uk)
+    setters = [b for kk in prog.with_closures(uk) for b, t in view(prog, kk).calls(re.compile(r"rustybgp_table::RibEntry::set_nexthop_invalid$"))]
+    if setters:
+        r2.ok("update_nexthop_validity: set_nexthop_invalid reached from %d site(s), none inside a short-circuiting iterator closure" % len(setters)) if not any(
+            mutating_short_circuit_closures(prog, view(prog, kk)) for kk in prog.with_closures(uk)) else None
+    else:
+        r2.unanalysable("update_nexthop_validity never calls set_nexthop_invalid", uvv.loc())
     r3 = rep.rule("R20.3", "FIB request carries the ECMP set and fires whenever that set may change")
     dv = view(prog, prog.one(re.escape(TS + "distribute_update")))
     r3.analysed(dv.name)
